@@ -26,10 +26,12 @@
 (*                  return runs along (cum)                                             *)
 (*     trace mode:  the same step / end rules with the choices bound to the events       *)
 (*                  recorded from the real code, then the tally (TrStep, TrEnd, TrFinish)*)
-(*     VARIANT = "intended" is the machine the property demands; "asbuilt" reproduces     *)
-(*     the two deviations of the pinned tree (discount taken from the class; raise when  *)
-(*     len(trajectory) >= max_steps) and is expected to violate AugPreserved /           *)
-(*     OptVerdictSound (model-level reproduction of the defects).                        *)
+(*     VARIANT = "intended" is the machine the property demands and the one every         *)
+(*     verdict is taken from.  "asbuilt" is an MC-only demonstration: it models the two   *)
+(*     deviations msdm had before they were repaired (discount taken from the class;     *)
+(*     raise when len(trajectory) >= max_steps) and TLC is expected to violate            *)
+(*     AugPreserved / OptVerdictSound on it.  Nothing in the conformance step refers to   *)
+(*     it: a recurrence in the real code is an ordinary violation.                        *)
 (* (P) invariants at the bottom.                                                        *)
 (* Modes (IOEnv.MODE): "aug", "plan", "opt" (pipeline A: TLC emits what the real code    *)
 (* must produce), "trace" (pipeline B: TLC validates recorded simulations and emits the  *)
@@ -53,8 +55,6 @@ Comps(m) == IF m.tab = 1 THEN Range(CompSeq) ELSE FunComps
 
 \* the base's discount rate: instance attribute if there is one, else the class attribute
 Eff(m) == IF m.ginst[2] # 0 THEN <<m.ginst[1], m.ginst[2]>> ELSE <<m.gclass[1], m.gclass[2]>>
-\* signature predicate of the as-built defect: an instance-level discount differing from the class's
-LosesInstanceDiscount(m) == m.ginst[2] # 0 /\ <<m.ginst[1], m.ginst[2]>> # <<m.gclass[1], m.gclass[2]>>
 
 BaseC(m, c) ==
   CASE c = "initial"     -> <<m.p0, m.ID>>
@@ -134,9 +134,10 @@ GPow(m, k) == Norm(IPow(m.GN, k), IPow(m.GD, k))
 StepReward(m, k, s, a, t) == RMul(GPow(m, k), <<m.R[s][a][t], 1>>)
 \* (O) discounted return of a history <<s, a, t>>...
 DiscSum(m, h) == RSumTo([i \in 1..Len(h) |-> StepReward(m, i - 1, h[i][1], h[i][2], h[i][3])], Len(h))
-\* (O) what the end of a run that stands in state c after n steps has to be
-Must(m, c, n) ==
-  IF c \in TermSet(m) THEN (IF n < m.lim THEN "return" ELSE "free") ELSE "raise"
+\* (O) what the end of a run that stands in state c after n <= lim steps has to be: reaching a terminal
+\* state within the limit (including on exactly the lim-th step) is ending at the goal; raising is
+\* required only when lim steps were taken and the last state is still not terminal
+Must(m, c, n) == IF c \in TermSet(m) THEN "return" ELSE "raise"
 AsBuiltRaises(m, n) == n + 1 >= m.lim
 
 \* why a recorded step is not a step of the machine ("ok" if it is)
@@ -156,9 +157,8 @@ EndReason(m, c, n, out, fin) ==
      (IF c \in TermSet(m) THEN "ok"
       ELSE IF n < m.lim THEN "returned-before-terminal" ELSE "returned-at-limit-without-terminal")
   ELSE
-     (IF c \in TermSet(m) /\ n < m.lim THEN
-         (IF n + 1 = m.lim THEN "raised-terminal-at-limit-minus-1" ELSE "raised-before-limit")
-      ELSE IF c \notin TermSet(m) /\ n < m.lim THEN "raised-before-limit-nonterminal"
+     (IF c \in TermSet(m) THEN "raised-at-terminal"
+      ELSE IF n < m.lim THEN "raised-before-limit-nonterminal"
       ELSE "ok")
 
 \* ---- tallies (trace mode)
@@ -295,16 +295,14 @@ Spec == Init /\ [][Next]_vars
 Emit ==
   CASE Mode = "aug" /\ pc = "done" ->
          PrintT(ToJson([kind |-> "aug", iid |-> iid, ovr |-> ovr, d |-> d,
-                        lossy |-> LosesInstanceDiscount(M), gclass |-> M.gclass]))
+                        eff |-> Eff(M)]))
     [] Mode = "plan" /\ pc = "planned" ->
          PrintT(ToJson([kind |-> "plan", iid |-> iid, d |-> d, judge |-> opt.judge, v |-> opt.v, q |-> opt.q,
-                        nmax |-> opt.nmax, implabs |-> opt.implabs,
-                        lossy |-> LosesInstanceDiscount(M), gclass |-> M.gclass]))
+                        nmax |-> opt.nmax, implabs |-> opt.implabs]))
     [] Mode = "opt" /\ pc \in {"returned", "raised"} ->
          PrintT(ToJson([kind |-> "opt", iid |-> iid, s0 |-> IF hist = <<>> THEN cur ELSE hist[1][1],
                         hist |-> hist, end |-> cur, nst |-> nst, status |-> pc, cum |-> cum,
-                        must |-> Must(M, cur, nst),
-                        asbuilt |-> IF AsBuiltRaises(M, nst) THEN "raised" ELSE "returned"]))
+                        must |-> Must(M, cur, nst)]))
     [] Mode = "trace" /\ pc \in {"accepted", "rejected"} ->
          PrintT(ToJson([kind |-> "trace", iid |-> iid, verdict |-> pc, reason |-> fail, at |-> <<j, l>>,
                         nst |-> nst, lim |-> M.lim,
@@ -352,8 +350,9 @@ PlanOracleSound ==
 \* --- option execution
 OptVerdictSound ==
   (Mode = "opt" /\ pc \in {"returned", "raised"}) =>
-     /\ (pc = "returned" => Must(M, cur, nst) # "raise")
-     /\ (pc = "raised"   => Must(M, cur, nst) # "return")
+     /\ (pc = "returned" <=> Must(M, cur, nst) = "return")
+     /\ (pc = "raised"   <=> Must(M, cur, nst) = "raise")
+     /\ (pc = "raised"   => nst = M.lim /\ \A i \in 1..Len(hist) : hist[i][1] \notin TermSet(M) /\ hist[i][3] \notin TermSet(M))
 OptFirstTerminal ==
   (Mode = "opt" /\ pc = "returned") =>
      /\ cur \in TermSet(M)
